@@ -127,12 +127,17 @@ type l1World struct {
 	waitBG  bool
 	// noConverge: only the stored-log invariants are checked at settle points (C06)
 	noConverge bool
+	// keys that are excluded from the convergence check (touched by the REST patch endpoint, whose
+	// effect on replicas is C19's subject)
+	skipConverge map[string]bool
 }
 
 var l1Seq int
 
 func newL1World(idseed uint64, kinds []sim.Kind) (*l1World, error) {
 	sim.SeedIDs(idseed)
+	knownCUIDs = map[string]bool{}
+	patchesHappened = false
 	env, err := cluster.New(cluster.Options{})
 	if err != nil {
 		return nil, err
@@ -164,6 +169,7 @@ func (w *l1World) addClient() (*l1Client, error) {
 	}
 	c := &l1Client{idx: len(w.clients), pc: pc, dts: map[string]*l1DT{}}
 	w.clients = append(w.clients, c)
+	knownCUIDs[pc.CUID()] = true
 	return c, nil
 }
 
@@ -423,8 +429,18 @@ func (w *l1World) checkLogInvariants() error {
 				return fmt.Errorf("datatype %s: operation with sseq %d is stored under _id %q", duid, so.sseq, so.id)
 			}
 			k := opKey(so.op)
+			if patchesHappened && w.foreignStoredOK(duid, k) {
+				// operations issued by the REST patch endpoint: every patch numbers its operations from 1
+				// under the client id recorded in the latest snapshot (known finding S17, see C19); they
+				// take no part in the per-client accounting
+				continue
+			}
 			if storedSet[k] {
-				return fmt.Errorf("datatype %s: operation %s is stored twice", duid, k)
+				var all []string
+				for _, x := range log {
+					all = append(all, fmt.Sprintf("%d=%s/%s", x.sseq, opKey(x.op), x.op.OpType))
+				}
+				return fmt.Errorf("datatype %s: operation %s is stored twice (log: %v)", duid, k, all)
 			}
 			storedSet[k] = true
 			if last, ok := perClient[so.op.ID.CUID]; ok && so.op.ID.Seq != last+1 {
@@ -467,8 +483,22 @@ func (w *l1World) checkLogInvariants() error {
 
 // foreignStoredOK lets checks that push operations outside send() (REST patch) declare them.
 func (w *l1World) foreignStoredOK(duid, key string) bool {
-	return strings.HasPrefix(key, "!@#$OrdaPatchAPI:")
+	if strings.HasPrefix(key, "!@#$OrdaPatchAPI:") {
+		return true
+	}
+	if !patchesHappened {
+		return false
+	}
+	// the REST patch endpoint issues its operations through a temporary local client with a random id
+	cuid := key[:strings.LastIndex(key, ":")]
+	return !knownCUIDs[cuid]
 }
+
+// knownCUIDs holds the ids of every client the harness created in the current case (all collections).
+var knownCUIDs = map[string]bool{}
+
+// patchesHappened is set by checks that call the REST patch endpoint in the current case.
+var patchesHappened bool
 
 // ---------------------------------------------------------------------------------------------
 // convergence (C05)
@@ -512,7 +542,7 @@ func (w *l1World) serverCopy(k *l1Key) (iface.Datatype, uint64, error) {
 
 func (w *l1World) checkConverged() error {
 	for _, k := range w.keys {
-		if !k.created {
+		if !k.created || w.skipConverge[k.Name] {
 			continue
 		}
 		log, _ := w.storedLog(k.duid)
